@@ -219,6 +219,44 @@ def run(A, R: Report, thorough: bool):
     whole = any(isinstance(n, ast.Call) and src(n.func) == 'search_and_replace_placeholders' and n.args and src(n.args[0]) == 'self._data' for n in A.typer.own_nodes(fag))
     R.check(whole, 'R11.5', 'Config.apply_global_vars', key_of('whole-data'), 'substitution over the whole config data', 'placeholder substitution no longer covers the whole config data', where=where(fag))
 
+    # ---- R11.7 a substituted string behaves as an ordinary string: no exact-type test on config-derived values
+    from ..configtaint import ConfigTaint, exact_str_tests
+    R.rule('R11.7', 'no `type(x) is str`-style test on a value that can come from config / context data (a substituted placeholder string is a str subclass)', floor=1)
+    CT = ConfigTaint(A)
+    # positive controls: the taint reaches the entries of `uses` / `tasks`, and not the task declarations of Meta
+    fpd0, fpc0 = A.func('Chain._process_dependencies'), A.func('Chain._process_config')
+    uses_loops = [n for n in A.typer.own_nodes(fpc0) if isinstance(n, ast.For) and "'uses'" in src(n.iter)]
+    R.require(uses_loops and all(CT.tainted(lp.iter, fpc0) for lp in uses_loops), 'positive control failed: the `uses` entries of a config are not recognised as config-derived')
+    n_tests = 0
+    for g in A.prog.functions.values():
+        for cmp_, e in exact_str_tests(A, g):
+            n_tests += 1
+            if CT.tainted(e, g):
+                R.violation('R11.7', f'{g.short}: `{src(cmp_)}`', key_of('exact-str-test', g.short, src(cmp_)),
+                            f'`{src(cmp_)}` tests the exact type of a value taken from config / context data: after placeholder substitution the value is a str subclass, so the string branch is not taken '
+                            '(the entry is then iterated character by character or rejected)', where=where(g, cmp_))
+            else:
+                R.ok('R11.7', f'{g.short}: `{src(cmp_)}`', 'tested value does not come from config data', where=where(g, cmp_))
+    if n_tests == 0:
+        R.ok('R11.7', 'package', 'no exact-type string test in the package', where='src/taskchain')
+
+    # ---- R11.8 the result of a substitution on a possibly-string value is used
+    R.rule('R11.8', 'where the substituted value can be a string (immutable), the result of search_and_replace_placeholders is kept', floor=1)
+    n_calls = 0
+    for g in A.prog.functions.values():
+        for n in A.typer.own_nodes(g):
+            if isinstance(n, ast.Call) and src(n.func).split('.')[-1] == 'search_and_replace_placeholders' and n.args and g.name != 'search_and_replace_placeholders':
+                n_calls += 1
+                discarded = isinstance(getattr(n, '_parent', None), ast.Expr)
+                arg_t = src(n.args[0])
+                # the same value is later normalised with list_or_str_to_list / tested for str: it may be a bare string
+                maybe_str = any(isinstance(m, ast.Call) and src(m.func) == 'list_or_str_to_list' and m.args and src(m.args[0]) == arg_t for m in A.typer.own_nodes(g)) or \
+                    any(isinstance(m, ast.Call) and src(m.func) == 'isinstance' and len(m.args) == 2 and src(m.args[0]) == arg_t and 'str' in src(m.args[1]) for m in A.typer.own_nodes(g))
+                R.check(not (discarded and maybe_str), 'R11.8', f'{g.short}: `{src(n)[:60]}`', key_of('discarded-substitution', g.short, arg_t),
+                        'result kept, or the value is a container (substituted in place)',
+                        f'`{arg_t}` can be a bare string (it is normalised with list_or_str_to_list afterwards) but the substituted string returned by the call is discarded: the placeholder stays', where=where(g, n))
+    R.require(n_calls >= 2, 'anchor: calls of search_and_replace_placeholders (Config.apply_global_vars, Context.prepare_context) not found')
+
     # ---- R11.6
     R.rule('R11.6', 'the name group of the placeholder pattern cannot run over a closing brace (lazy repeat or a class excluding `}`)', floor=1)
     for c, pat in subs:
